@@ -54,6 +54,13 @@ CHECKS["C06"] = ("model_checking",
     "+inf, -inf; own-cost dict and function variables; min and max) with the exact optimal value sets and costs; each is executed on the real functions. "
     "Part 2: executions of the real DSA (A, B, C) and A-DSA computations; at every change of value TLC checks that the new value is in ArgBestLocal computed "
     "from the value messages of that evaluation.", _N, "DESIGN.md section 4 C06")
+CHECKS["C11"] = ("model_checking",
+    "TLC-enumerated relations x slicing walks with the expected slices (Gen_C11.tla/Relations.tla), executed on the real relation classes per PYTHONHASHSEED",
+    "TLC enumerates relations of all eight kinds over ordered scopes (every declared order x textual/parameter order for expression and python-function "
+    "relations; conditional relations with shared variables) and every slicing walk of up to 2 (quick) / 3 steps; after every step the real relation must have "
+    "exactly the remaining variables as dimensions and agree with Slice(R, fixed) on every completion through keyword, positional and dict calls; the batch is "
+    "run in one sub-process per PYTHONHASHSEED (3 quick / 6 thorough).",
+    "Trusted: TLC's evaluation of Relations.tla/Gen_C11.tla, the construction of the real relations in vlib/props/C11_worker.py.", "DESIGN.md section 4 C11")
 NOT_YET = "check not built yet in this snapshot (work in progress, see DESIGN.md section 9)"
 
 fix_commits = subprocess.run(["git", "-C", "/repo", "log", "--format=%h %s", "aeaae91..HEAD"], capture_output=True, text=True).stdout.splitlines()
